@@ -1,9 +1,9 @@
 SPECIFICATION Spec
-CONSTANTS MayCrash = FALSE
-          N = 3
+CONSTANTS MayCrash = TRUE
+          N = 2
           K1 = "reply"
-          K2 = "reply"
-          K3 = "reply"
+          K2 = "ff"
+          K3 = "ff"
           Threads <- ThreadsDef
           Kind <- KindDef
 INVARIANTS Indivisible OwnAnswer NoDeadlock Emit
